@@ -72,6 +72,8 @@ struct Wire {
     fin_sent: bool,
     fin_rcvd: bool,
     rst: bool,
+    /// the writer closed abortively: what is still in flight is dropped
+    aborted: bool,
     reader_gone: bool,
     /// writer-side error once the peer's departure is known to the writer
     write_err: Option<io::ErrorKind>,
@@ -95,6 +97,7 @@ impl Wire {
             fin_sent: false,
             fin_rcvd: false,
             rst: false,
+            aborted: false,
             reader_gone: false,
             write_err: None,
             grace_writes: 0,
@@ -127,6 +130,8 @@ enum NetEv {
     Deliver { conn: u32, dir: u8, data: Vec<u8> },
     Fin { conn: u32, dir: u8, full_close: bool },
     Rst { conn: u32 },
+    /// reset travelling from the server to the client (abortive close)
+    SrvRst { conn: u32 },
 }
 
 struct Timed {
@@ -355,13 +360,15 @@ impl Net {
                 let reset_in_backlog = n.conns.get(&id).map(|c| c.c2s.rst).unwrap_or(false);
                 drop(n);
                 self.world.log(Ev::Accepted, id, 0, u64::from(reset_in_backlog), 0);
-                let io = ServerEnd { net: self.clone(), conn: id };
+                let opts = std::sync::Arc::new(dropshot::verif_net::SockOpts::default());
+                let io = ServerEnd { net: self.clone(), conn: id, opts: opts.clone() };
                 let stream = if reset_in_backlog {
                     self.world.fault("reset_in_backlog");
                     TcpStream::new(io)
                 } else {
                     TcpStream::with_addrs(io, addr, peer)
-                };
+                }
+                .with_opts(opts);
                 Poll::Ready(Ok((stream, peer)))
             }
         }
@@ -527,6 +534,25 @@ impl Net {
         self.kick.notify_one();
     }
 
+    /// The server closes abortively: undelivered server->client bytes are
+    /// dropped and a reset travels to the client.
+    fn abort_from_server(&self, conn: u32) {
+        let now = self.world.now_ms();
+        let mut n = self.inner.lock().unwrap();
+        let Some(c) = n.conns.get_mut(&conn) else { return };
+        if c.s2c.fin_sent {
+            // an orderly shutdown was already sent: nothing left to abort
+        }
+        c.s2c.aborted = true;
+        c.s2c.fin_sent = true;
+        let w = &mut c.s2c;
+        let lat = if w.policy.lat_max > w.policy.lat_min { w.rng.range(w.policy.lat_min, w.policy.lat_max) } else { w.policy.lat_min };
+        Net::schedule(&mut n, now + lat, NetEv::SrvRst { conn });
+        drop(n);
+        self.world.fault("server_abortive_close");
+        self.kick.notify_one();
+    }
+
     /// The reader of `dir` goes away: bytes in flight are discarded on
     /// arrival and the writer is never blocked again.
     fn reader_leaves(&self, conn: u32, dir: u8) {
@@ -550,7 +576,7 @@ impl Net {
                 let w = c.wire(dir);
                 w.inflight -= data.len();
                 w.delivered += data.len() as u64;
-                if w.reader_gone || w.rst {
+                if w.reader_gone || w.rst || w.aborted {
                     let ww = w.writer_waker.take();
                     drop(n);
                     if let Some(ww) = ww {
@@ -588,6 +614,22 @@ impl Net {
                 }
                 drop(n);
                 self.world.log(Ev::FinDelivered, conn, 0, 0, u64::from(dir));
+                for w in wakers {
+                    w.wake();
+                }
+            }
+            NetEv::SrvRst { conn } => {
+                let mut n = self.inner.lock().unwrap();
+                let Some(c) = n.conns.get_mut(&conn) else { return };
+                let mut wakers = Vec::new();
+                c.s2c.rst = true;
+                c.s2c.recvbuf.clear();
+                wakers.extend(c.s2c.reader_waker.take());
+                c.c2s.write_err = Some(io::ErrorKind::ConnectionReset);
+                c.c2s.grace_writes = 0;
+                wakers.extend(c.c2s.writer_waker.take());
+                drop(n);
+                self.world.log(Ev::RstDelivered, conn, 0, 0, 1);
                 for w in wakers {
                     w.wake();
                 }
@@ -699,6 +741,8 @@ impl Drop for SimListenerImpl {
 pub struct ServerEnd {
     net: Net,
     conn: u32,
+    /// socket options the server set on the accepted stream (SO_LINGER)
+    opts: std::sync::Arc<dropshot::verif_net::SockOpts>,
 }
 
 impl AsyncRead for ServerEnd {
@@ -738,7 +782,14 @@ impl AsyncWrite for ServerEnd {
 impl Drop for ServerEnd {
     fn drop(&mut self) {
         self.net.world.log(Ev::SrvConnDropped, self.conn, 0, 0, 0);
-        self.net.send_fin(self.conn, S2C, true);
+        let abortive = *self.opts.linger.lock().unwrap() == Some(std::time::Duration::ZERO);
+        if abortive {
+            // close(2) with SO_LINGER 0: what has not reached the peer yet
+            // is discarded and the peer gets a reset instead of a FIN
+            self.net.abort_from_server(self.conn);
+        } else {
+            self.net.send_fin(self.conn, S2C, true);
+        }
         self.net.reader_leaves(self.conn, C2S);
     }
 }
